@@ -212,13 +212,13 @@ func (r *Run) NilOptional(scope func(fn *ssa.Function) bool, msgPkgGlob string) 
 		sinks := map[string][]sinkT{} // access path -> sinks
 		var order []string
 		add := func(v ssa.Value, in ssa.Instruction, what string) {
-			fa, ok := optionalLoad(v)
+			// the part is read by loading the field or through a nil-safe accessor of it (rules_t6c08.go)
+			x, _, ok := e.optionalRead(v)
 			if !ok {
 				return
 			}
-			mt := fa.X.Type().Underlying().(*types.Pointer).Elem()
-			nt, ok := mt.(*types.Named)
-			if !ok || nt.Obj().Pkg() == nil || !glob(msgPkgGlob, nt.Obj().Pkg().Path()) {
+			nt := msgNamed(x.Type())
+			if nt == nil || nt.Obj().Pkg() == nil || !glob(msgPkgGlob, nt.Obj().Pkg().Path()) {
 				return
 			}
 			path := r.D.D(v)
@@ -235,7 +235,7 @@ func (r *Run) NilOptional(scope func(fn *ssa.Function) bool, msgPkgGlob string) 
 				c := x.Common()
 				vals := append([]ssa.Value{}, c.Args...)
 				for _, a := range vals {
-					if _, ok := optionalLoad(a); !ok {
+					if _, _, ok := e.optionalRead(a); !ok {
 						continue
 					}
 					if b, w := e.passesNilTo(x, a, 0); b {
